@@ -60,6 +60,10 @@ Obl(e) ==
          <<"op-ok", e.ok>>,
          <<"matches-reference", e.ok => e.ref_ok>>,
          <<"context-matters", e.ok => e.last_byte_matters>> >>
+    \* the same (key, blind, context) combinations evaluated by several goroutines at once: still functions of their arguments
+    [] e.op = "KStress" -> <<
+         <<"quiet", e.panic = "">>,
+         <<"matches-reference", e.wrong = 0>> >>
     [] e.op = "BlindBad" -> <<
          <<"quiet", e.panic = "">>,
          <<"invalid-key-refused", ~e.decodable => e.refused>> >>
